@@ -1,4 +1,5 @@
 """C10 - fork.Fold equals the sequential fold for any commutative monoid."""
+import atexit
 import json
 import os
 import shutil
@@ -50,38 +51,44 @@ ASSUMPTIONS = [
 ]
 
 
-def stage():
+_BUILT = {}
+_SHRUNK = {}
+
+
+def build():
+    """stage + build once per ./check process (the shrinker re-runs the binary many times)"""
+    if "exe" in _BUILT:
+        return _BUILT["dir"], _BUILT["exe"]
     d = vlib.scratch_dir("c10")
+    atexit.register(shutil.rmtree, d, ignore_errors=True)
     shutil.copy(os.path.join(vlib.ROOT, "harness/c10/c10_test.go"), os.path.join(d, "c10_test.go"))
     vlib.write_gomod(d, "harness", requires=["pipe", "pure"])
-    return d
+    exe = os.path.join(d, "c10.test")
+    rc, out = vlib.go_build(d, ".", exe, test=True)
+    if rc != 0:
+        raise vlib.HarnessError("harness does not build against %s/pipe:\n%s" % (vlib.REPO, out[-1500:]))
+    _BUILT.update(dir=d, exe=exe)
+    return d, exe
 
 
 def run_harness(ctx, tier=None, only=None):
-    d = stage()
-    try:
-        exe = os.path.join(d, "c10.test")
-        rc, out = vlib.go_build(d, ".", exe, test=True)
-        if rc != 0:
-            raise vlib.HarnessError("harness does not build against %s/pipe:\n%s" % (vlib.REPO, out[-1500:]))
-        env = dict(ctx.env)
-        if tier:
-            env["VERIF_TIER"] = tier
-        outp = os.path.join(d, "cases.jsonl")
-        env["VERIF_OUT"] = outp
-        if only is not None:
-            p = os.path.join(d, "only.jsonl")
-            with open(p, "w") as f:
-                for c in only:
-                    f.write(json.dumps({k: c[k] for k in ("monoid", "par", "mode", "input")}) + "\n")
-            env["VERIF_CASES"] = p
-        rc, so, se = vlib.sh2([exe, "-test.run", "^TestC10$", "-test.timeout", "20m"], cwd=d, env=env, timeout=1500)
-        if rc != 0:
-            raise vlib.HarnessError("harness failed (rc %d): %s" % (rc, (so + se)[-1500:]))
-        with open(outp) as f:
-            return [json.loads(l) for l in f if l.strip()]
-    finally:
-        shutil.rmtree(d, ignore_errors=True)
+    d, exe = build()
+    env = dict(ctx.env)
+    if tier:
+        env["VERIF_TIER"] = tier
+    outp = os.path.join(d, "cases.jsonl")
+    env["VERIF_OUT"] = outp
+    if only is not None:
+        p = os.path.join(d, "only.jsonl")
+        with open(p, "w") as f:
+            for c in only:
+                f.write(json.dumps({k: c[k] for k in ("monoid", "par", "mode", "input")}) + "\n")
+        env["VERIF_CASES"] = p
+    rc, so, se = vlib.sh2([exe, "-test.run", "^TestC10$", "-test.timeout", "20m"], cwd=d, env=env, timeout=1500)
+    if rc != 0:
+        raise vlib.HarnessError("harness failed (rc %d): %s" % (rc, (so + se)[-1500:]))
+    with open(outp) as f:
+        return [json.loads(l) for l in f if l.strip()]
 
 
 def run_impl(ctx, tier=None):
@@ -132,6 +139,9 @@ def _eval(ctx, cases, tag):
 
 def shrink(ctx, case):
     """drop elements / lower par while the real code still violates the oracle (re-run every candidate)"""
+    key = json.dumps(signature(case), sort_keys=True)
+    if key in _SHRUNK:          # the runner reports one case per signature
+        return _SHRUNK[key]
     cur = case
     for _ in range(16):
         cands = []
@@ -149,6 +159,7 @@ def shrink(ctx, case):
         if not bad:
             break
         cur = got[bad[0]]
+    _SHRUNK[key] = cur
     return cur
 
 
